@@ -18,6 +18,8 @@ NEUTRALS = [
 
 # changes made by sub-agents that were given only the property text (see /verif/seeded/<id>/): each must stay reported
 SEEDED = [
+    {'name': 'seeded change C20-r5b', 'seed': 'C20-r5b', 'expect': '|F1|'},
+    {'name': 'seeded change C20-r5a', 'seed': 'C20-r5a', 'expect': '|F1|'},
     {'name': 'seeded change C20-r4b', 'seed': 'C20-r4b', 'expect': '|F1|'},
     {'name': 'seeded change C20-r4a', 'seed': 'C20-r4a', 'expect': '|ITER|'},
     {'name': 'seeded change C20-r3', 'seed': 'C20-r3', 'expect': '|F1|'},
